@@ -83,7 +83,7 @@ def monitor (s : St) (h : Nat) (old : TorMon) (p c dl ca : Bool) : List String :
      [pf "partial-file-left" "an in-progress download was dropped/cancelled but its partial file still exists"] else []) ++
   (if dropped && kind ≠ "tick" && kind ≠ "rm" then
      [pf "dropped-without-timeout" s!"torrent dropped by operation {sp s.lastOp}"] else []) ++
-  (if old.ca && !ca && kind ≠ "rm" && !(dropped && kind = "tick" && old.c) then
+  (if old.ca && !ca && kind ≠ "rm" && kind ≠ "evict" && !(dropped && kind = "tick" && old.c) then
      [pf "cached-blob-deleted" s!"cached blob disappeared during operation {sp s.lastOp}"] else [])
 
 def step (s : St) (kind : String) (args impl : List String) : Option (St × StepOut) :=
@@ -112,11 +112,44 @@ def step (s : St) (kind : String) (args impl : List String) : Option (St × Step
     let k ← k.toNat?
     let was := (s.m.tors h).present
     let r := KrakenModel.TorrentIdle.step s.cfg s.m (.new h k)
-    pure ({ s with m := r.1 }, { obs := outTok r.2, branch := "new." ++ (if was then "reuse." else "") ++ outName r.2 })
+    let ev := evicted (s.m.tors h)
+    pure ({ s with m := r.1 }, { obs := outTok r.2, branch := "new." ++ (if ev then "evicted." else if was then "reuse." else "") ++ outName r.2 })
+  | ["peer", ht, k] => do
+    let h ← hash? ht
+    let k ← k.toNat?
+    let t := s.m.tors h
+    let r := KrakenModel.TorrentIdle.step s.cfg s.m (.peer h k)
+    pure ({ s with m := r.1 }, { obs := outTok r.2, branch := "peer." ++ (if t.present then "existing" else torClass (r.1.tors h)) })
+  | ["evict", ht] => do
+    let h ← hash? ht
+    let t := s.m.tors h
+    let r := KrakenModel.TorrentIdle.step s.cfg s.m (.evict h)
+    pure ({ s with m := r.1 }, { obs := outTok r.2, branch := "evict." ++ torClass t ++ (if t.cached then "" else ".nothing") })
+  | ["lost", ht, pt] => do
+    let h ← hash? ht
+    let i ← piece? pt
+    let r := KrakenModel.TorrentIdle.step s.cfg s.m (.lost h i)
+    pure ({ s with m := r.1 }, { obs := outTok r.2, branch := "lost." ++ outName r.2 })
+  | [ev, ht] =>
+    if ev = "aerr" ∨ ev = "ares" then do
+      let _ ← hash? ht
+      pure ({ s with m := next s.cfg s.m .other }, { obs := [], branch := "other." ++ ev })
+    else if ev = "notice" then do
+      let h ← hash? ht
+      let t := s.m.tors h
+      pure ({ s with m := next s.cfg s.m (.notice h) }, { obs := [], branch := "notice." ++ torClass t })
+    else if ev = "rm" then do
+      let h ← hash? ht
+      let t := s.m.tors h
+      let r := KrakenModel.TorrentIdle.step s.cfg s.m (.rm h)
+      pure ({ s with m := r.1 }, { obs := outTok r.2, branch := "rm." ++ torClass t })
+    else none
+  | ["stop"] => some ({ s with m := next s.cfg s.m .other }, { obs := [], branch := "other.stop" })
   | ["serve", ht, pt, mode] => do
     let h ← hash? ht
     let i ← piece? pt
-    let closeOk ← (if mode = "ok" ∨ mode = "noread" then some true else if mode = "closefail" then some false else none)
+    -- "egress": the conn's limiter refuses the piece; sendPiecePayload closes the reader all the same
+    let closeOk ← (if mode = "ok" ∨ mode = "egress" then some true else if mode = "closefail" then some false else none)
     let r := KrakenModel.TorrentIdle.step s.cfg s.m (.serve h i closeOk)
     let s := { s with m := r.1 }
     let s := if impl = ["sent"] ∧ closeOk then setMon s h (fun m => { m with serves := s.now :: m.serves }) else s
@@ -136,19 +169,31 @@ def step (s : St) (kind : String) (args impl : List String) : Option (St × Step
       let t := s.m.tors h
       if t.present ∧ !(m'.tors h).present then (if t.complete then "S" else "L") else "-"
     some ({ s with m := m' }, { obs := [], branch := s!"tick.{drops 0}{drops 1}" })
-  | ["notice", ht] => do
-    let h ← hash? ht
-    let t := s.m.tors h
-    pure ({ s with m := next s.cfg s.m (.notice h) }, { obs := [], branch := "notice." ++ torClass t })
-  | ["rm", ht] => do
-    let h ← hash? ht
-    let t := s.m.tors h
-    let r := KrakenModel.TorrentIdle.step s.cfg s.m (.rm h)
-    pure ({ s with m := r.1 }, { obs := outTok r.2, branch := "rm." ++ torClass t })
   | _ => none
 
 def machine : Machine := { σ := St, name := "idle", init := init, step := step }
 
 end C18
 
-def main (args : List String) : IO UInt32 := runMachines [C18.machine] args
+/- machine `idlerace`: the schedule below the model's event granularity (a piece write completing the blob between
+   removeTorrent's `!Complete()` test and its `DeleteTorrent`). In the event-level model the tick drops the idle
+   download first and the late piece finds no torrent; what is checked here is the implementation's own outcome:
+   the torrent is no longer held, and a blob that was complete in between must not have been deleted by an idle
+   drop (monitor, raised by the harness and here). -/
+namespace C18R
+def step (_ : Unit) (kind : String) (args impl : List String) : Option (Unit × StepOut) :=
+  if kind ≠ "one" then none else
+  match args with
+  | ["race", k] =>
+    let cib := kv? impl "completed_in_between"
+    let ca := kv? impl "cached_after"
+    let pf := if k ≠ "rm" ∧ cib = some "1" ∧ ca = some "0" then
+        [s!"side=impl key=idle-drop-deleted-completed-blob {k}: the download completed while it was being dropped as idle, and the drop deleted the completed blob from the cache"]
+      else []
+    -- model: the drop comes first (held=0); the blob's fate under the race is not determined by the model
+    some ((), { obs := ["held=0"] ++ impl.drop 1, branch := "race." ++ k, propfails := pf })
+  | _ => none
+def machine : Machine := { σ := Unit, name := "idlerace", init := fun _ => some (), step := step }
+end C18R
+
+def main (args : List String) : IO UInt32 := runMachines [C18.machine, C18R.machine] args
